@@ -31,6 +31,7 @@ async function evalCase(check, driver, c) {
 function sigOf(v) { return v.clause + ' | ' + v.diff; }
 
 async function workerMain(id, tier, shard, nshards, seed) {
+  process.env.VERIF_TIER_EFFECTIVE = tier; // judges that explore extra environment answers in the thorough tier read this
   const check = loadCheck(id);
   const driver = new Driver();
   const st = {
@@ -331,6 +332,7 @@ async function parentMain(id, tier, opts) {
 async function replayMain(id, file) {
   const check = loadCheck(id);
   const rec = JSON.parse(fs.readFileSync(file, 'utf8'));
+  process.env.VERIF_TIER_EFFECTIVE = rec.tier || 'quick';
   const driver = new Driver();
   let bad = false;
   for (const [label, c] of [['minimal', rec.minimal], ['example', rec.example]]) {
